@@ -214,6 +214,8 @@ AddColumn(s, t, c) ==
   ELSE [s EXCEPT !.cols[t] = Append(@, c), !.ctab[c] = t, !.out = "ok"]
 
 DeleteColumnObj(s, t, c) ==
+  IF c \notin Cols THEN [s EXCEPT !.out = "ok"]   \* neither Column nor int: the code falls through, no effect
+  ELSE
   LET k == FirstIdx(s.cols[t], LAMBDA x : EqCol(s, x, c)) IN
   IF k = 0 THEN Reject(s, "ColumnNotFoundError")
   ELSE LET victim == s.cols[t][k] IN
@@ -229,6 +231,8 @@ AddIndex(s, t, i) ==
   ELSE [s EXCEPT !.idxs[t] = Append(@, i), !.itab[i] = t, !.out = "ok"]
 
 DeleteIndexObj(s, t, i) ==
+  IF i \notin Idxs THEN [s EXCEPT !.out = "ok"]   \* neither Index nor int: falls through, no effect
+  ELSE
   LET k == FirstIdx(s.idxs[t], LAMBDA x : EqIdx(s, x, i)) IN
   IF k = 0 THEN Reject(s, "IndexNotFoundError")
   ELSE LET victim == s.idxs[t][k] IN
@@ -360,10 +364,10 @@ OrderKept ==
 ProjectReplaced ==
   [][ (s.project # None /\ s'.project # s.project) => ~s'.own[s.project] ]_vars
 
-\* an index over a column of another table is never accepted
+\* an index over a column of another table is never accepted: whenever a table's index list
+\* grows, every column subject of the new index is owned by that table at that moment
 ForeignIndexRefused ==
-  \A t \in Tables : \A k \in DOMAIN s.idxs[t] :
-     \A j \in DOMAIN IdxSubj[s.idxs[t][k]] :
-        LET c == IdxSubj[s.idxs[t][k]][j] IN
-        c # 0 => (s.ctab[c] = t \/ s.ctab[c] = None)   \* None: the column was deleted afterwards
+  [][ \A t \in Tables : Len(s'.idxs[t]) > Len(s.idxs[t]) =>
+         LET i == s'.idxs[t][Len(s'.idxs[t])] IN
+         \A j \in DOMAIN IdxSubj[i] : IdxSubj[i][j] # 0 => s.ctab[IdxSubj[i][j]] = t ]_vars
 =============================================================================
